@@ -179,6 +179,7 @@ void h_init(void) {
   __CPROVER_assert(g_lock_held == 0 && g_lock_calls == 0, "init: the queue lock is initialised, unlocked");
   __CPROVER_assume(0 <= k && k < Q.size);
   __CPROVER_assert(Q.ptr[k] == 0, "init: every cell starts NULL");
+  __CPROVER_assert(Q.wc.seq == 0 && Q.wc.size == 0 && Q.wc.ptr == 0, "init: the steal cache starts empty");
   VERIF_CANARY();
 }
 /* clear runs at worker start-up and shut-down only (myth_worker_start_ex_body, myth_queue_fini): no other worker operates
